@@ -289,8 +289,9 @@ def check_getitem(idx: ProgramIndex, rep: Report):
         branch = (taken[-1] if taken else ("else" if guards else "")).replace("isinstance", "is")
         site = ("%s -> %s" % (branch, path_site[0])) if path_site else "<no covariance index on path>"
         if pos:
-            per_site.setdefault(site, {"C11-1": set(), "C11-2": set(), "paths": 0})
+            per_site.setdefault(site, {"C11-1": set(), "C11-2": set(), "C11-6": set(), "paths": 0})
             per_site[site]["paths"] += 1
+            per_site[site]["batch"] = per_site[site].get("batch") or bool(path_site) and ("[" in path_site[0])
             for r, m in ue.problems:
                 per_site[site][r].add(m)
     inst = MOD + ":MultitaskMultivariateNormal.__getitem__"
@@ -304,6 +305,9 @@ def check_getitem(idx: ProgramIndex, rep: Report):
         u1, u2 = sorted(d["C11-1"]), sorted(d["C11-2"])
         rep.add("C11-1", inst + "[units: %s]" % site[:150], fi.where, not u1,
                 "unit-consistent flat selection (row*num_cols + col, matching step, same selection on both axes) on %d path(s)" % d["paths"] if not u1 else "; ".join(u1[:3]), {"paths": d["paths"]})
+        u6 = sorted(d["C11-6"])
+        if d.get("batch"):
+            rep.add("C11-6", inst + "[batch apart: %s]" % _anon_site(site)[:150], fi.where, not u6, "batch indices and event index tensors are applied in separate subscripts (or the event indices are slices / integers)" if not u6 else "; ".join(u6[:2]), {"paths": d["paths"]})
         rep.add("C11-2", inst + "[normalised: %s]" % site[:150], fi.where, not u2,
                 "every index component is normalised with the size of its own dimension before it enters the arithmetic" if not u2 else "; ".join(u2[:3]), {"paths": d["paths"]})
     rep.floor("C11-1", "covariance index sites typed", len(per_site), 7)
@@ -348,6 +352,15 @@ def check_getitem(idx: ProgramIndex, rep: Report):
             ("; ".join(bad_mask) if bad_mask else "_normalize_index does not tell boolean masks from integer index tensors: row_idx * num_cols + col_idx reads True/False as 1/0, so the covariance belongs to other entries than mean[idx]"), {"mask_paths": mask_paths})
 
 
+_KEEP_IN_SITE = {"is", "slice", "int", "and", "or", "not", "self", "else", "None", "Ellipsis", "tuple", "list"}
+
+
+def _anon_site(site: str) -> str:
+    """local names are not part of a finding's key: every identifier that is not an attribute (after a dot) or a keyword becomes `_`"""
+    import re
+    return re.sub(r"(?<![\w.])([A-Za-z_][A-Za-z_0-9]*)\b", lambda m: m.group(1) if m.group(1) in _KEEP_IN_SITE else "_", site)
+
+
 def _is_cov_base(e: ast.AST, cov: str) -> bool:
     if chain(e) == cov:
         return True
@@ -369,21 +382,42 @@ def _check_cov_index(ue: UnitsEval, node: ast.Subscript, cov: str):
         cur = cur.value
     if isinstance(cur, ast.Call):
         is_diag = True
+    positions: List[Optional[int]] = []
+
+    def full(x: ast.AST) -> bool:
+        return isinstance(x, ast.Slice) and x.lower is None and x.upper is None and x.step is None
     for sub in reversed(chain_nodes):
         s = sub.slice
         v = ue.ev(s)
         if isinstance(s, ast.Tuple):
-            for x in s.elts:
-                if not (isinstance(x, ast.Constant) and x.value is Ellipsis):
-                    sels.append(x)
+            ell = [k for k, x in enumerate(s.elts) if isinstance(x, ast.Constant) and x.value is Ellipsis]
+            for k, x in enumerate(s.elts):
+                if isinstance(x, ast.Constant) and x.value is Ellipsis:
+                    continue
+                if full(x):
+                    continue  # `:` keeps the axis as it is
+                sels.append(x)
+                positions.append(k - len(s.elts) if ell and k > ell[0] else None)
         elif v.kind == "TUPLE" and isinstance(s, ast.BinOp):
             # batch_idx + (a, b)
             rhs = s.right if isinstance(s.right, ast.Tuple) else s.left
             if isinstance(rhs, ast.Tuple):
                 sels.extend(rhs.elts)
+                positions.extend(-2 + k for k in range(len(rhs.elts)))  # the batch indices are followed by the row axis, then the column axis
+                # C11-6: advanced indices in one subscript are zipped: a computed index TENSOR over the event axes must not share a subscript
+                # with the caller's batch indices (which may contain index tensors too)
+                for x in rhs.elts:
+                    if isinstance(x, ast.Name) and ue.ev(x).kind not in ("FLATSLICE", "ROWSLICE", "COLSLICE", "INT", "NONE"):
+                        ue.err("C11-6", "`%s` puts the flat event index tensor `%s` into one subscript with the caller's batch indices: an index tensor over a batch dimension is zipped element-wise with it instead of selecting batch members (index the batch first: cov[batch_idx][..., %s, :][..., %s])" % (src(node)[:70], x.id, x.id, x.id))
+        elif v.kind == "BATCH" and isinstance(s, ast.Name):
+            continue  # [batch_idx]: the caller's batch indices alone select no event axis
         else:
             sels.append(s)
+            positions.append(None)
     want = 1 if is_diag else 2
+    if not is_diag and len(sels) == 2 and None not in positions and sorted(positions) != [-2, -1]:
+        ue.err("C11-1", "`%s` selects the covariance axes %s (expected the row axis -2 and the column axis -1 once each)" % (src(node)[:80], positions))
+        return
     if len(sels) != want:
         ue.err("C11-1", "`%s` applies %d flat selections to the covariance (expected %d)" % (src(node)[:80], len(sels), want))
         return
@@ -810,5 +844,6 @@ def run(idx: ProgramIndex, rep: Report, tier: str):
     check_layout(idx, rep)
     layout_kept_outside(idx, rep)
     from .common_alias import aliasing_obligations
+    rep.rule("C11-6", "the caller's batch indices and computed event index tensors never share a subscript (advanced indices in one subscript are zipped element-wise)")
     rep.rule("C11-4", "no in-place aliasing hazard in MultitaskMultivariateNormal (storage/version domain)")
     aliasing_obligations(idx, rep, "C11-4", list(idx.cls(MOD, "MultitaskMultivariateNormal").methods.values()), 10, "MultitaskMultivariateNormal methods interpreted")
